@@ -155,6 +155,17 @@ def templates(tier):
     T.append(("late_line", ["x = 1\n" * 70 + "#", (1, WS), "pytrapic: no-inline-functions, compact\n" + "y = 2\n" * 5]))
     T.append(("last_line_no_newline", ["x = 1\n\n\n#", (1, WS), "pytrapic: remove-labels", (1, [0x20, ord(","), ord("x")])]))
     T.append(("first_line", ["#", (1, WS + [ord("!")]), "pytrapic: no-append-version\nx = 1\n"]))
+    # 11. letter case of the marker and of option names, a second marker on the line, '=' and ':' as
+    #     separators, trailing commas, BOM before the '#'
+    T.append(("case:name", ["# pytrapic: ", (1, [ord("c"), ord("C")]), "ompact, remove", (1, [ord("-"), ord("_")]), (1, [ord("l"), ord("L")]), "abels\n"]))
+    T.append(("case:marker", ["# ", (1, [ord("p"), ord("P")]), "ytrapic", (1, [ord(":"), ord("="), ord(" ")]), " compact\n"]))
+    T.append(("two_markers", ["# pytrapic: compact", (1, [ord(","), ord(" ")]), " pytrapic: remove-labels", (1, [ord(","), 0x20]), "no-inline-functions\n"]))
+    T.append(("sep:equals", ["# pytrapic: compact", (1, [ord("="), ord(":"), ord(",")]), (1, [ord("0"), ord("f"), 0x20]), ", remove-labels", (1, [ord(","), 0x20, ord(";")]), "\n"]))
+    T.append(("bom", [(1, [0xFEFF, 0x20, 0xA0]), "# pytrapic: compact\nx = 1\n"]))
+    T.append(("unknown_then_known", ["# pytrapic: ", (1, [ord("x"), ord("n")]), "o", (1, [ord("-"), ord("_"), ord("x")]), "bogus, compact, no-", (1, [ord("x"), ord("c")]), "ompact\n"]))
+    # 12. several tags on one line, negated and plain ones in every order (polarity symbolic: 'no-x' / 'xo-x')
+    T.append(("mixed_polarity:1", ["# pytrapic: ", (1, [ord("n"), ord("x")]), "o-generated-comments, remove-labels, ", (1, [ord("n"), ord("x")]), "o-inline-functions, compact\n"]))
+    T.append(("mixed_polarity:2", ["# pytrapic: compact, ", (1, [ord("n"), ord("x")]), "o_append_version, tail-call-optimization, ", (1, [ord("n"), ord("x")]), "o-remove-labels, use_push_pop_functions\n"]))
     # 7. carriage returns
     T.append(("crlf", ["x = 1", (1, [0x0D, 0x0A]), (1, [0x0A, 0x20]), "# pytrapic: compact", (1, [0x0D, 0x20]), "\n"]))
     return T
